@@ -6,7 +6,9 @@
 //!   * by the real `RSPEngine` in MultiThread mode once per schedule seed (all emitted solutions, in order;
 //!     quiescence = the engine was dropped, every worker and the coordinator left their loops - hook counters).
 //! Case: {"windows": [{"w","s","stream"}], "query", "static": N-Triples text, "policy": "wait"|"steal"|"timeout_steal"|
-//!        "timeout_drop", "evs": [{"stream","nt","id","ts"}], "stop": bool, "seeds": [n...]}
+//!        "timeout_drop", "evs": [{"stream","stream_arg","nt","id","ts"}], "stop": bool, "seeds": [n...]}
+//!   "stream" is the canonical stream IRI (the probes route on exact equality of it - the specification of routing),
+//!   "stream_arg" the spelling handed to add_to_stream (bare, `<...>`, or `:name`).
 //!   * optionally ("lockstep": true) in MultiThread mode with the harness waiting for quiescence after every event.
 //! Result: {"calls": [{"k", "firings": [[window index, [ids]]], "rows": [row]}], "mt": [{"seed","rows":[row],...}],
 //!          "lockstep": {"calls": [[row]], "tail": [row]}}
@@ -25,6 +27,8 @@ static PANICKED: AtomicBool = AtomicBool::new(false);
 
 struct Ev {
     stream: String,
+    /// the string handed to add_to_stream (the stream IRI in one of its accepted spellings)
+    stream_arg: String,
     nt: String,
     id: u64,
     ts: usize,
@@ -42,6 +46,7 @@ fn events(case: &Value) -> Vec<Ev> {
         .iter()
         .map(|e| Ev {
             stream: e["stream"].as_str().unwrap().to_string(),
+            stream_arg: e["stream_arg"].as_str().unwrap_or(e["stream"].as_str().unwrap()).to_string(),
             nt: e["nt"].as_str().unwrap().to_string(),
             id: e["id"].as_u64().unwrap(),
             ts: e["ts"].as_u64().unwrap() as usize,
@@ -124,23 +129,31 @@ fn rows_json(rows: Vec<Row>) -> Value {
     json!(rs)
 }
 
-fn run_single(case: &Value, evs: &[Ev], stop: bool) -> Result<Vec<Value>, String> {
+/// (solutions per call, number of window contents the engine's own windows handed to the processors per call)
+fn run_single(case: &Value, evs: &[Ev], stop: bool) -> Result<(Vec<Value>, Vec<usize>), String> {
     verif_hooks::reset();
     verif_hooks::set_schedule_seed(0);
     let sink: Arc<Mutex<Vec<Row>>> = Arc::new(Mutex::new(Vec::new()));
     let mut engine = build(case, OperationMode::SingleThread, Arc::clone(&sink))?;
     let mut out: Vec<Value> = Vec::new();
+    let mut fired: Vec<usize> = Vec::new();
+    let mut seen = 0usize;
     for e in evs.iter() {
         for t in engine.parse_data(&e.nt) {
-            engine.add_to_stream(&e.stream, t, e.ts);
+            engine.add_to_stream(&e.stream_arg, t, e.ts);
         }
         out.push(rows_json(sink.lock().unwrap().drain(..).collect()));
+        let n = verif_hooks::processor_entered_count();
+        fired.push(n - seen);
+        seen = n;
     }
     if stop {
         engine.stop();
         out.push(rows_json(sink.lock().unwrap().drain(..).collect()));
+        let n = verif_hooks::processor_entered_count();
+        fired.push(n - seen);
     }
-    Ok(out)
+    Ok((out, fired))
 }
 
 fn mix(x: &mut u64) -> u64 {
@@ -173,7 +186,7 @@ fn run_multi(case: &Value, evs: &[Ev], stop: bool, nwin: usize, seed: u64, timeo
     let mut prod = seed ^ 0x1111_2222;
     for e in evs.iter() {
         for t in engine.parse_data(&e.nt) {
-            engine.add_to_stream(&e.stream, t, e.ts);
+            engine.add_to_stream(&e.stream_arg, t, e.ts);
         }
         if seed != 0 {
             match mix(&mut prod) % 8 {
@@ -229,7 +242,7 @@ fn run_lockstep(case: &Value, evs: &[Ev], pr: &[(i64, Vec<(usize, Vec<u64>)>)], 
     let mut timed_out = false;
     for (k, e) in evs.iter().enumerate() {
         for t in engine.parse_data(&e.nt) {
-            engine.add_to_stream(&e.stream, t, e.ts);
+            engine.add_to_stream(&e.stream_arg, t, e.ts);
         }
         expected += pr[k].1.len();
         let t0 = Instant::now();
@@ -274,7 +287,7 @@ fn main() {
         let evs = events(case);
         let wins = windows(case);
         let pr = probe(&wins, &evs, stop);
-        let st = match vharness::catch(std::panic::AssertUnwindSafe(|| run_single(case, &evs, stop))) {
+        let (st, st_fired) = match vharness::catch(std::panic::AssertUnwindSafe(|| run_single(case, &evs, stop))) {
             Ok(Ok(v)) => v,
             Ok(Err(e)) => return json!({"build_error": e}),
             Err(m) => return json!({"panic": m, "where": "single-thread"}),
@@ -283,7 +296,8 @@ fn main() {
         let calls: Vec<Value> = pr
             .iter()
             .zip(st.iter())
-            .map(|((k, firings), rows)| json!({"k": k, "firings": firings, "rows": rows}))
+            .zip(st_fired.iter())
+            .map(|(((k, firings), rows), nf)| json!({"k": k, "firings": firings, "rows": rows, "engine_firings": nf}))
             .collect();
         let mut mt: Vec<Value> = Vec::new();
         for sd in case["seeds"].as_array().cloned().unwrap_or_default() {
@@ -294,7 +308,12 @@ fn main() {
                 Err(m) => return json!({"panic": m, "where": "multi-thread"}),
             }
         }
-        let lock = if case["lockstep"].as_bool().unwrap_or(false) {
+        // lockstep waits for as many firings as the probe windows report; it is only meaningful (and only terminates)
+        // when the engine's own windows fire exactly there - otherwise the single-thread comparison already shows it
+        let same_firings = pr.iter().zip(st_fired.iter()).all(|((_, f), n)| f.len() == *n);
+        let lock = if !same_firings {
+            json!({"skipped": "the engine's windows do not fire where the probe windows fire"})
+        } else if case["lockstep"].as_bool().unwrap_or(false) {
             match vharness::catch(std::panic::AssertUnwindSafe(|| run_lockstep(case, &evs, &pr, wins.len(), timeout_ms))) {
                 Ok(Ok(v)) => v,
                 Ok(Err(e)) => return json!({"build_error": e}),
